@@ -89,8 +89,8 @@ open Lean in
 /-- Tinker08 coefficient at the object's overdensity: spline value between the tabulated
     overdensities (opaque local of the constructor), table entry at a tabulated one -/
 macro "T08coef" s:str : term =>
-  `(cond .gt (v "flag:delta_halo not in self.delta_virs") 0.5 (v $(Syntax.mkStrLit ("loc:Tinker08." ++ s.getString ++ "_0")))
-      (v $(Syntax.mkStrLit ("py:self.params[f'" ++ s.getString ++ "_{int(delta_halo)}']"))))
+  `(cond .gt (v "flag:delta_halo in self.delta_virs") 0.5 (v $(Syntax.mkStrLit ("py:self.params[f'" ++ s.getString ++ "_{int(delta_halo)}']")))
+      (v $(Syntax.mkStrLit ("loc:Tinker08." ++ s.getString ++ "_0"))))
 
 /-- Tinker08: A((σ/b)^−a + 1) exp(−c/σ²), A = A₀(1+z)^−A_exp, a = a₀(1+z)^−a_exp, b = b₀(1+z)^−α,
     α = 10^−(0.75/log₁₀(Δ/75))^1.2 -/
@@ -103,8 +103,8 @@ def Tinker08 : E :=
 
 open Lean in
 macro "T10coef" s:str : term =>
-  `(cond .gt (v "flag:int(delta_halo) not in self.delta_virs") 0.5 (v $(Syntax.mkStrLit ("loc:Tinker10." ++ s.getString ++ "_0")))
-      (v $(Syntax.mkStrLit ("py:self.params[f'" ++ s.getString ++ "_{int(delta_halo)}']"))))
+  `(cond .gt (v "flag:int(delta_halo) in self.delta_virs") 0.5 (v $(Syntax.mkStrLit ("py:self.params[f'" ++ s.getString ++ "_{int(delta_halo)}']")))
+      (v $(Syntax.mkStrLit ("loc:Tinker10." ++ s.getString ++ "_0"))))
 def T10z : E := 1 + emin (v "z") (p "max_z")
 def T10β : E := T10coef "beta" * T10z ^ᵣ p "beta_exp"
 def T10φ : E := T10coef "phi" * T10z ^ᵣ p "phi_exp"
